@@ -38,6 +38,7 @@ type Cfg struct {
 	StrLen  int // max length of strings and keys (symbolic bytes)
 	Leaves  int // number of leaf kinds used, in the order int,string,bool,nil,uint,f32,f64
 	ASCII   bool // strings/keys restricted to printable ASCII without quote/backslash
+	Small   bool // integers restricted to 0..9 and string bytes to 'a' (harnesses whose subject is not the scalar encoding)
 	nodes   int
 	h       *rt.H
 	seq     int
@@ -57,7 +58,11 @@ func Value(h *rt.H, c *Cfg) *Node {
 func (c *Cfg) str(what string) []byte {
 	n := c.h.Choose(what+"len", 0, c.StrLen)
 	b := c.h.Bytes(what, n)
-	if c.ASCII {
+	if c.Small {
+		for _, x := range b {
+			c.h.Assume(x == 'a')
+		}
+	} else if c.ASCII {
 		for _, x := range b {
 			c.h.Assume(x >= 0x20 && x < 0x7f && x != '"' && x != '\\')
 		}
@@ -83,6 +88,9 @@ func (c *Cfg) value(depth int) *Node {
 			n.Bits = rt.IteU64(c.h.Bool("b"), 1, 0)
 		case KInt, KUint, KF64:
 			n.Bits = c.h.U64("v")
+			if c.Small && n.K != KF64 {
+				c.h.Assume(n.Bits <= 9)
+			}
 		case KF32:
 			n.Bits = uint64(c.h.U32("v"))
 		case KStr:
